@@ -7,6 +7,7 @@ import RsMatterVerif.Lemmas.CodecBtpBdx
 import RsMatterVerif.Lemmas.CodecQr
 import RsMatterVerif.Lemmas.CodecCheckIn
 import RsMatterVerif.Lemmas.CodecBleAdv
+import RsMatterVerif.Lemmas.CodecBleRecovery
 /-!
 # C17 — headers, onboarding payloads and discovery records decode what was encoded
 
@@ -289,5 +290,50 @@ example : BleAdv.WF { vid := 0xFFF1, pid := 0x8000, disc := 0xF00, additional :=
 theorem ble_adv_parse_total (adv : List Nat) :
     NoPanic (BleAdv.parseAdv adv) ∧ NoPanic (BleAdv.parseServiceData adv) :=
   ⟨BleAdv.parseAdv_np adv, BleAdv.parseServiceData_np adv⟩
+
+end C17
+
+/-! ## (D16b-1) BLE advertisement payload of a node in network-recovery mode (`RecoveryAdvData`) -/
+namespace C17
+open Codec
+
+/-- `parse_service_data (service_payload_iter r) = r` and `parse_adv (iter r) = r` for every eight-byte id -/
+theorem ble_recovery_parse_encode (r : BleRecovery.Rec) (hwf : BleRecovery.WF r) :
+    BleRecovery.parseServiceData (BleRecovery.servicePayload r) = .ok (some r) ∧
+    BleRecovery.parseAdv (BleRecovery.encode r) = .ok (some r) :=
+  BleRecovery.parse_encode r hwf
+example : BleRecovery.WF { id := [0x11, 0x22, 0x33, 0x44, 0x55, 0x66, 0x77, 0x88], additional := false } := rfl
+
+/-- both parsers are total on arbitrary bytes: the guarded indexes / `try_into().unwrap()` never fire -/
+theorem ble_recovery_parse_total (adv : List Nat) :
+    NoPanic (BleRecovery.parseAdv adv) ∧ NoPanic (BleRecovery.parseServiceData adv) :=
+  ⟨BleRecovery.parseAdv_np adv, BleRecovery.parseServiceData_np adv⟩
+
+/-- refusal: a payload shorter than 11 bytes, a payload whose opcode is not 1, an advertisement
+without a Matter service-data structure -/
+theorem ble_recovery_rejected :
+    (∀ p : List Nat, p.length < BleRecovery.PAYLOAD_LEN → BleRecovery.parseServiceData p = .ok none) ∧
+    (∀ (op : Nat) (rest : List Nat), op ≠ BleRecovery.OPCODE_NETWORK_RECOVERY →
+      BleRecovery.parseServiceData (op :: rest) = .ok none) ∧
+    (∀ adv : List Nat, BleAdv.matterServiceData (adv.length + 1) adv = none → BleRecovery.parseAdv adv = .ok none) :=
+  ⟨BleRecovery.parse_rejects_short, BleRecovery.parse_rejects_opcode, BleRecovery.parseAdv_rejects_no_matter⟩
+example : ([1, 0, 1, 2, 3] : List Nat).length < BleRecovery.PAYLOAD_LEN ∧ (0 : Nat) ≠ BleRecovery.OPCODE_NETWORK_RECOVERY ∧
+    BleAdv.matterServiceData 4 [0x02, 0x01, 0x05] = none := by decide
+
+/-- soundness of an accepted payload: wire layout `01 vv id[8] ad …`, id verbatim, flag = bit 0 -/
+theorem ble_recovery_accepts_only_layout (p : List Nat) (r : BleRecovery.Rec)
+    (h : BleRecovery.parseServiceData p = .ok (some r)) :
+    BleRecovery.WF r ∧ ∃ v ad rest, p = BleRecovery.OPCODE_NETWORK_RECOVERY :: v :: (r.id ++ ad :: rest) ∧
+      r.additional = decide (ad % 2 = 1) :=
+  BleRecovery.parse_some p r h
+example : BleRecovery.parseServiceData [1, 0, 1, 2, 3, 4, 5, 6, 7, 8, 1] =
+    .ok (some { id := [1, 2, 3, 4, 5, 6, 7, 8], additional := true }) := by
+  rw [BleRecovery.parseServiceData_long]; rfl
+
+/-- the commissionable and the recovery payload never parse as each other (opcode byte / length) -/
+theorem ble_adv_kinds_disjoint (r : BleRecovery.Rec) (a : BleAdv.Adv) :
+    BleAdv.parseServiceData (BleRecovery.servicePayload r) = .ok none ∧
+    BleRecovery.parseServiceData (BleAdv.servicePayload a) = .ok none :=
+  BleRecovery.kinds_disjoint r a
 
 end C17
